@@ -107,6 +107,18 @@ fn load_bases() -> Result<Vec<Base>, String> {
     add_gen("generated:geoms-all-nine".into(), prefix_with(fi("geoms"), "geoms.select", 12), vec![]);
     add_gen("generated:multi-5.3-mixedcase".into(), vec![fi("multi") as u32, 1], vec![Dev::AllCase(2)]);
     add_gen("generated:pin_attrs-noendlibrary".into(), vec![fi("pin_attrs") as u32], vec![Dev::NoEndLibrary]);
+    add_gen(
+        "generated:ports-with-comments".into(),
+        vec![fi("ports") as u32],
+        vec![
+            Dev::Gap { at: 0, alt: 2 },
+            Dev::Gap { at: 3, alt: 4 },
+            Dev::Gap { at: 9, alt: 5 },
+            Dev::Gap { at: 17, alt: 7 },
+            Dev::Gap { at: 30, alt: 4 },
+            Dev::Gap { at: 41, alt: 3 },
+        ],
+    );
     add_gen("generated:property-joined".into(), vec![fi("property") as u32], vec![Dev::JoinProps]);
     // texts embedded in the repository tests, and resource files
     let root = format!("{}/.repo", crate::sandbox::verif_root());
@@ -178,7 +190,10 @@ fn ops_small() -> Vec<String> {
     let r = repl();
     let idx = |s: &str| r.iter().position(|x| x == s).unwrap();
     let mut v = vec!["del".to_string(), "dup".into(), "swap".into()];
-    for s in ["END", "LAYER", "MACRO", ";", "1.5", "nm", "\"s\"", "\"unterminated", "#c"] {
+    for s in [
+        "END", "LAYER", "MACRO", "PIN", "PORT", "OBS", "RECT", "POLYGON", "VIA", "UNITS", "SITE", "PROPERTY", "BEGINEXT",
+        "ENDEXT", "LIBRARY", "ITERATE", "DO", "MASK", ";", "1.5", "nm", "\"s\"", "\"unterminated", "#c", "-inf",
+    ] {
         v.push(format!("r{}", idx(s)));
     }
     v
@@ -328,7 +343,7 @@ impl Driver for C11 {
             rule: format!(
                 "{} base texts ({} tokens, {} characters): the default rendering of every generator focus plus variants (versions, no END LIBRARY, mixed case, joined properties, all nine geometries), every raw string literal of lef21/src/tests.rs and read.rs, macro.lef, lib1.yaml, lib2.yaml, the empty file. Faults: every character-boundary prefix; at every token (comments and string literals included): deleted, duplicated, swapped with the next, replaced by each of {} tokens ({} keywords / enumeration words, ';', numbers, a name, a string literal, an unterminated string, '-', '.', 1e9, -inf, a comment); {} non-ASCII strings (2-, 3-, 4-byte, combining, U+00A0, U+2028) inserted inside the token, as a token of its own, glued before / after it and in a comment before it{}; after each of {} parser contexts every token sequence of length <= {} over the same {} tokens. distinct = distinct text (sequences are distinct by construction); non-trivial = non-blank text.",
                 bs.len(), ntok, nchar, repl().len(), lr::KEYWORDS.len(), NONASCII.len(),
-                if tier.is_thorough() { "; on the ten smallest bases with at least 8 tokens every pair of faults (reduced operation set: delete, duplicate, swap, 9 replacements) at two non-adjacent tokens" } else { "" },
+                format!("; on the {} smallest bases with at least 8 tokens every pair of faults (reduced operation set: delete, duplicate, swap, 25 replacements) at two non-adjacent tokens", tier.pick(6, 16)),
                 CONTEXTS.len(), tier.pick(2, 3), repl().len()
             ),
             assumptions: vec![
@@ -360,10 +375,10 @@ impl Driver for C11 {
                 v.push(format!("X:{c}:{a}"));
             }
         }
-        if tier.is_thorough() {
+        {
             let mut small: Vec<usize> = (0..bs.len()).filter(|&b| bs[b].toks.len() >= 8).collect();
             small.sort_by_key(|&b| (bs[b].toks.len(), b));
-            for &b in small.iter().take(10) {
+            for &b in small.iter().take(tier.pick(6, 16)) {
                 for i in 0..bs[b].toks.len() {
                     v.push(format!("D:{b}:{i}"));
                 }
@@ -488,9 +503,8 @@ impl Driver for C11 {
             "fault:prefix", "fault:token", "fault:nonascii", "fault:sequence", "token:word", "token:string", "token:semicolon",
             "token:comment", "nonascii:in-string", "nonascii:in-comment", "nonascii:in-word",
         ];
-        if tier.is_thorough() {
-            tags.push("fault:pair");
-        }
+        tags.push("fault:pair");
+        let _ = tier;
         require_tags(stats, &tags)?;
         require_outcomes(stats, &["err", "ok/reopen-ok"])
     }
